@@ -99,6 +99,19 @@ fn expected_kind(h: &DHeader, len: u64) -> Exp {
     Exp::NoClaim
 }
 
+fn exp_name(e: Exp) -> &'static str {
+    match e {
+        Exp::AnyErr => "any-error",
+        Exp::Endianness => "WrongEndianness",
+        Exp::Format => "WrongFormat",
+        Exp::Version => "WrongVersion",
+        Exp::InvalidClasses => "InvalidClasses",
+        Exp::InvalidMembers => "InvalidMembers",
+        Exp::StringBytes(..) => "UnexpectedStringBytes",
+        Exp::NoClaim => "no-claim",
+    }
+}
+
 fn kind_matches(exp: Exp, got: &Result<(), cur::CacheErrorKind>) -> bool {
     use cur::CacheErrorKind as K;
     match (exp, got) {
@@ -170,7 +183,7 @@ fn c11_visit(lines: &[Line], term: Term, acc: &mut Acc) {
                 acc.outcome(h64(&("prefix", format!("{:?}", std::mem::discriminant(&k)))), true);
                 let exp = if n < HEADER_SIZE { Exp::AnyErr } else { expected_kind(&h0, n as u64) };
                 if !kind_matches(exp, &Err(k)) {
-                    acc.violation(format!("prefix:kind:{:?}", std::mem::discriminant(&exp)).replace(['(', ')'], ""), size, || {
+                    acc.violation(format!("prefix:expected-{}", exp_name(exp)), size, || {
                         (format!("the {}-byte prefix of a {}-byte file is rejected with {:?}, the documented layout says {:?}", n, full.len(), k, exp), mkcase(json!({"prefix":n}), format!("{:?}", exp), format!("{:?}", k)))
                     });
                 }
@@ -214,7 +227,7 @@ fn c11_visit(lines: &[Line], term: Term, acc: &mut Acc) {
             Ok(got) => {
                 acc.outcome(h64(&("edit", format!("{:?}", got.as_ref().err().map(std::mem::discriminant)))), got.is_err());
                 if !kind_matches(exp, &got) {
-                    acc.violation(format!("header-edit:{:?}", std::mem::discriminant(&exp)).replace(['(', ')'], ""), size, || {
+                    acc.violation(format!("header-edit:expected-{}", exp_name(exp)), size, || {
                         (format!("header edit {:?} (offset, value): expected {:?}, parser said {:?}", sc, exp, got), mkcase(json!({"header_edits":sc}), format!("{:?}", exp), format!("{:?}", got)))
                     });
                 }
